@@ -37,6 +37,7 @@ from happysimulator.components.sync.mutex import Mutex
 from happysimulator.core.clock import Clock
 from happysimulator.core.entity import Entity
 from happysimulator.core.event import Event
+from happysimulator.core.sim_future import SimFuture
 
 logger = logging.getLogger(__name__)
 
@@ -150,11 +151,14 @@ class Condition(Entity):
         self._waits += 1
         enqueue_time = self._clock.now.nanoseconds if self._clock else 0
 
-        # Set up wakeup callback
+        # Set up wakeup callback; the waiting process parks on a future that the
+        # callback resolves, so waiting costs no events and simulated time can pass
         woken = [False]
+        signal = SimFuture()
 
         def on_wake():
             woken[0] = True
+            signal.resolve(True)
 
         waiter = _Waiter(callback=on_wake, enqueue_time_ns=enqueue_time)
         self._waiters.append(waiter)
@@ -164,7 +168,7 @@ class Condition(Entity):
 
         # Wait for signal
         while not woken[0]:
-            yield 0.0
+            yield signal
 
         # Reacquire the mutex
         yield from self._lock.acquire()
